@@ -1,5 +1,5 @@
 (* C12: Unmarshal then Marshal is idempotent and deterministic. *)
-From Errdef Require Import Base.Str Base.Outcome Model.Core Model.Convert Model.Unmarshal Model.JsonVal Check.UM.
+From Errdef Require Import Base.Str Base.Outcome Model.Core Model.Convert Model.Unmarshal Model.JsonVal Model.Redoc Check.UM.
 From Flocq Require Import IEEE754.BinarySingleNaN.
 
 (* one unmarshaling (compared with the model as in C10) plus what the harness saw of
@@ -10,9 +10,12 @@ Record case := {
   c_marshals : bool;     (* Marshal(Unmarshal(x)) produced a document n *)
   c_fix : bool;          (* Unmarshal(n) succeeded and Marshal of it is JSON-equal to n *)
   c_lib : option bool;   (* x was produced by marshaling a library error: n is JSON-equal to x *)
-  c_redec : list (sval * option dval)
+  c_redec : list (sval * option dval);
      (* the JSON step observed on typed scalar values: json.Marshal(v), then decoding into `any`
         as jsonToDecodedData does (None: json.Marshal failed) *)
+  c_ndd : option dd;     (* the document n as the JSON decoder hands it to unmarshal (jsonToDecodedData n) *)
+  c_rp : list (Z * Z)    (* strconv on the float32 values bound in the restored error: (float32 bits, bits of
+                            the float64 its JSON text parses to) *)
 }.
 
 (* validation of Model/JsonVal.redecode - and of the strconv contract the theorems
@@ -38,6 +41,55 @@ Definition redec_ok (p : sval * option dval) : bool :=
       end
   end.
 
+(* validation of Model/Redoc.redoc (the function C12_document_fixpoint is stated with): whenever the model
+   restores an error r from a JSON-native x and redoc r is defined, the document n = Marshal(r) that the
+   implementation produced decodes to exactly redoc r - kind, message, type, the fields object in name
+   order with every typed value re-encoded and every unknown value verbatim, stack, causes recursively.
+   reparse32 is the observed strconv table of the case, each entry checked against the contract the
+   theorem assumes. *)
+Definition reparse_of (l : list (Z * Z)) (b : Z) : Z :=
+  match find (fun p => Z.eqb (fst p) b) l with Some p => snd p | None => 0%Z end.
+Definition rp_ok (p : Z * Z) : bool :=
+  is_finite (f32_of_bits (fst p)) && is_finite (f64_of_bits (snd p)) &&
+  (bits_of_f32 (f64_to_f32 (f64_of_bits (snd p))) =? fst p)%Z.
+Definition dv_sim (a b : dval) : bool :=
+  match a, b with
+  | DNil, DNil => true
+  | DS _ _, DS _ _ => ds_eqb a b
+  | DJ i _, DJ j _ => N.eqb i j
+  | DBytes s, DBytes s' => str_eqb s s'
+  | DO i _ _, DO j _ _ => N.eqb i j
+  | _, _ => false
+  end.
+Definition frame_eqb (x y : frame) : bool :=
+  str_eqb (fr_func x) (fr_func y) && str_eqb (fr_file x) (fr_file y) && Z.eqb (fr_line x) (fr_line y).
+Fixpoint dd_sim (a b : dd) : bool :=
+  match a, b with
+  | DD m k t f s c _, DD m' k' t' f' s' c' _ =>
+      str_eqb m m' && str_eqb k k' && str_eqb t t' &&
+      list_eqb (fun x y => str_eqb (fst x) (fst y) && dv_sim (snd x) (snd y)) f f' &&
+      list_eqb frame_eqb s s' &&
+      (fix go (l1 l2 : list (option dd)) : bool :=
+         match l1, l2 with
+         | [], [] => true
+         | Some x :: r1, Some y :: r2 => dd_sim x y && go r1 r2
+         | None :: r1, None :: r2 => go r1 r2
+         | _, _ => false
+         end) c c'
+  end.
+Definition ndd_ok (c : case) : bool :=
+  forallb rp_ok (c_rp c) &&
+  match c_ndd c with
+  | None => true
+  | Some nd =>
+      if c_native c then
+        match model_res (c_um c) with
+        | UOk r => match redoc (reparse_of (c_rp c)) r with Some y => dd_sim y nd | None => true end
+        | _ => true
+        end
+      else true
+  end.
+
 Definition ok (c : case) : bool :=
   let o := c_obs (c_um c) in
   (* the same input unmarshals alike every time, with identical observable state *)
@@ -46,7 +98,7 @@ Definition ok (c : case) : bool :=
   (negb (str_eqb (uo_class o) "ok") || negb (c_native c) || negb (c_marshals c) || c_fix c) &&
   match c_lib c with Some b => b | None => true end.
 
-Definition corr (c : case) : bool := UM.corr (c_um c) && forallb redec_ok (c_redec c).
+Definition corr (c : case) : bool := UM.corr (c_um c) && forallb redec_ok (c_redec c) && ndd_ok c.
 
 Definition bad_ok (cs : list case) : list N := bad_idx ok cs.
 Definition bad_corr (cs : list case) : list N := bad_idx corr cs.
